@@ -143,13 +143,15 @@ def failing_slot(fk, i, ignore):
         t = task(('command', 'k%dsig' % i, '', 1009))        # killed by SIGKILL: no exit status
     elif fk == 12:
         t = task(('command', 'k%dterm' % i, '', 1015), loop=[lit('x'), lit('y')], when=('eq', ('var', ['item']), ('str', 'x')))
+    elif fk == 14:
+        t = task(('debugvar', ['undefined_u']))         # a template error raised INSIDE the module: an ordinary, ignorable failure
     else:
         t = task(('include', 'missing.rh'))
     t["ignore"] = ignore
     return t
 
 
-NFAIL = 14
+NFAIL = 15
 TRUTH_LITS = [('list', 0), ('list', 2), ('map', 0), ('map', 1), ('num', 0), ('num', 3), ('bool', False), ('bool', True), ('str', 'x')]
 
 
@@ -346,6 +348,22 @@ def c02(run, replay=None):
     for (k, v, c), o in zip(envp, outs):
         if o["rc"] != 0 or not o["stdout"].startswith(v + "\n"):
             run.violation("env-inherit: child command does not see -e %s=%s: %r" % (k, v, o), dict(desc=c["desc"], implementation=o))
+    # `name` is a template like the others: it sees what earlier tasks of the same file wrote (default output: TASK [path:name]);
+    # (a name that uses the task's own vars or `item` silently falls back to the module name: not judged)
+    import subprocess
+    nroot = os.path.join(C.SANDBOX, "names")
+    os.makedirs(nroot, exist_ok=True)
+    nscript = ("#!/usr/bin/env rash\n- name: \"step {{ v | default('unset') }}\"\n  set_vars:\n    v: one\n- name: \"step {{ v }}\"\n  command: echo two\n  register: r\n"
+               "- name: \"after {{ r.output | trim }} {{ v }}\"\n  set_vars:\n    v: three\n- name: \"looped {{ v }}\"\n  debug:\n    msg: x\n  loop: [p, q]\n"
+               "- include: %s/ninc.rh\n" % nroot)
+    open(os.path.join(nroot, "main.rh"), "w").write(nscript)
+    open(os.path.join(nroot, "ninc.rh"), "w").write("#!/usr/bin/env rash\n- name: \"inc {{ v }}\"\n  set_vars:\n    v: four\n- name: \"inc {{ v }}\"\n  debug:\n    msg: z\n")
+    pn = subprocess.run([C.RASH, os.path.join(nroot, "main.rh")], capture_output=True, timeout=30, cwd=nroot, env=dict(os.environ, NO_COLOR="1"))
+    heads = re.findall(r"TASK \[[^\]:]*:([^\]]*)\]", re.sub(r"\x1b\[[0-9;]*m", "", pn.stdout.decode("utf-8", "replace")))
+    want_heads = ["step unset", "step one", "after two one", "looped three", "include", "inc three", "inc four"]
+    if pn.returncode != 0 or heads != want_heads:
+        run.violation("task names are not rendered against the store of the moment: headers %r, expected %r (rc %r)" % (heads, want_heads, pn.returncode),
+                      dict(script=nscript, observed=dict(rc=pn.returncode, headers=heads, stderr=pn.stderr.decode("utf-8", "replace")[-300:])))
     finish_cov(run, j,
                "random histories of 2-8 steps over set_vars / register / task vars / loops (item) / when / skipped and ignored-failed tasks, a probe task printing a, b and `item is defined` after every step; "
                "plus -e overrides of new and existing environment variables seen through env.* and by child commands; non-trivial = distinct histories with more than one event",
@@ -468,13 +486,19 @@ def c11(run, replay=None):
     docA = "#\n# Usage:\n#   prog (install|update|help) [<filters>...]\n#\n"
     docB = "#\n# Usage:\n#   prog [--help] <foo>\n#\n"
     docC = ("#\n# Usage:\n#   prog (install|update|help) [<filters>...]\n#   prog -h | --help\n#\n# Options:\n#   -h,--help   Show this screen\n#\n")
+    docD = "#\n# Usage:\n#   prog [--force] <target>\n#\n# Options:\n#   --force  Do it anyway\n#\n"
     dcases = []
     for doc, argv, expect in [(docC, ["--help"], "help"), (docC, ["-h"], "help"), (docC, ["help"], "help"), (docC, ["install"], "run"),
                               (docC, ["bogus"], "reject"), (docC, ["install", "f1"], "run"),
                               (docA, ["nope"], "reject"), (docA, [], "reject"), (docA, ["install"], "run"), (docA, ["update", "f1", "f2"], "run"),
                               (docA, ["help"], "help"), (docA, ["install", "update"], "run"), (docA, ["--bogus"], "reject"),
                               (docB, ["--help"], "help"), (docB, ["v"], "run"), (docB, [], "reject"), (docB, ["v", "w"], "reject"),
-                              (docB, ["--help", "v"], "help")]:
+                              (docB, ["--help", "v"], "help"),
+                              # a script that does NOT declare help: --help / -h are unknown options like any other
+                              (docD, ["--help"], "reject"), (docD, ["-h"], "reject"), (docD, ["--help", "prod"], "reject"), (docD, ["--force", "prod", "--help"], "reject"),
+                              (docD, ["prod", "-h"], "reject"), (docD, ["--force", "prod"], "run"), (docD, ["prod"], "run"), (docD, ["help"], "run"), (docD, ["--bogus", "prod"], "reject"),
+                              # declared help together with an option the script does not know
+                              (docC, ["--help", "--bogus"], "reject"), (docC, ["--bogus", "-h"], "reject")]:
         dcases.append((argv, expect, dict(files={"main.rh": dict(raw="#!/usr/bin/env rash\n" + doc + body)}, argv=(["--"] + argv if argv else []),
                                           desc=dict(usage=doc, argv=argv, expect=expect))))
     # documentation blocks written in other ways (no blank after `#`, `#!` inside, tabs, CRLF, a `#` on a task line,
@@ -611,6 +635,16 @@ def c17(run, replay=None):
     exp = [l for l in want.split("\n") if l]
     if o["rc"] != 0 or got != exp:
         run.violation("rash.args inside included files: expected %r, got %r (rc %r)" % (exp, got, o["rc"]), dict(main=sc_main, one=sc_one, two=sc_two, observed=o))
+    # the main script lives in roles/web/main.rh and includes `main.rh` - resolved from the working directory, that is ROOT/main.rh,
+    # another file with the same base name: inside it rash.path / rash.dir name THAT file
+    o = E.run_impls([dict(files={"roles/web/main.rh": dict(raw="#!/usr/bin/env rash\n- debug:\n    msg: \"outer {{ rash.path }} {{ rash.dir }}\"\n- include: main.rh\n- debug:\n    msg: \"outer-again {{ rash.path }} {{ rash.dir }}\"\n"),
+                                 "main.rh": dict(raw="#!/usr/bin/env rash\n- debug:\n    msg: \"inner {{ rash.path }} {{ rash.dir }}\"\n- include: \"{{ rash.dir }}/helper.rh\"\n"),
+                                 "helper.rh": dict(raw="#!/usr/bin/env rash\n- debug:\n    msg: \"helper-top {{ rash.path }}\"\n"),
+                                 "roles/web/helper.rh": dict(raw="#!/usr/bin/env rash\n- debug:\n    msg: \"helper-wrong {{ rash.path }}\"\n")}, script="roles/web/main.rh")])[0]
+    got = [l for l in o["stdout"].split("\n") if l]
+    exp = ["outer ROOT/roles/web/main.rh ROOT/roles/web", "inner ROOT/main.rh ROOT", "helper-top ROOT/helper.rh", "outer-again ROOT/roles/web/main.rh ROOT/roles/web"]
+    if o["rc"] != 0 or [g.replace("ROOT/./", "ROOT/") for g in got] != exp:
+        run.violation("a relative include naming a file with the includer's base name: expected %r, got %r (rc %r)" % (exp, got, o["rc"]), dict(observed=o))
     # generate-then-include: the same path included several times, the file REWRITTEN in between (and by a loop):
     # every include reads the file as it is then
     gen = ("#!/usr/bin/env rash\n"
